@@ -1,7 +1,7 @@
 SPECIFICATION Spec
 CONSTANTS
   Jids = {"c1", "c2"}
-  MaxVer = 2
+  Items <- ItemsTwo
   Ress = {"r1", "r2"}
   Froms = {"absent", "ownBare", "ownFull", "ownOther", "server", "stranger", "contact", "look1", "look2", "look3"}
   ConnKinds = {"plain", "sm", "smr", "resumed"}
